@@ -226,6 +226,18 @@ where
             proof.alu_quintic_trinomial
         )));
     }
+    // Likewise the declared binomial parameter: the AIRs below take `W` from `SC::Challenge`.
+    let expected_w = if TRACE_D > 1 {
+        <SC::Challenge as ExtractBinomialW<Val<SC>>>::extract_w()
+    } else {
+        None
+    };
+    if proof.w_binomial != expected_w {
+        return Err(VerificationError::InvalidProofShape(
+            "binomial parameter mismatch: proof.w_binomial differs from the verifier's field"
+                .to_string(),
+        ));
+    }
     let rows: RowCounts = proof.rows;
     let packing = proof.table_packing.clone();
     let public_lanes = packing.public_lanes();
